@@ -973,12 +973,12 @@ theorem stsLike_wl (c : Cluster) (ns : String) (ref : Ref) (w : W) (h : getState
   unfold stsTarget
   split at h
   · cases h
+  · cases h
   all_goals
     rename_i he
     rw [he]
     obtain ⟨o, i, hg, hp, hs⟩ := afterGet_wl _ _ _ h
     refine ⟨i, ?_, stsLikeOf_wl i w hs⟩
-  · cases hp
   · simp [get_found _ _ _ _ _ _ _ hg, hp]
   · simp [get_found _ _ _ _ _ _ _ hg, hp]
   · simp [get_found _ _ _ _ _ _ _ hg, hp]
@@ -994,14 +994,12 @@ theorem stsLike_out (c : Cluster) (ns : String) (ref : Ref) (o : Out) (h : getSt
   simp only [present]
   split at h
   · rename_i he; rw [he]; subst h; simp
+  · rename_i he; rw [he]; subst h; simp
   all_goals
     rename_i he
     rw [he]
     obtain ⟨h1, h2, h3⟩ := afterGet_out _ _ _ h
     refine ⟨fun e => ?_, h2, fun e => ?_⟩
-  · rfl
-  · obtain ⟨x, hx, _⟩ := h3 e
-    simp [get_found _ _ _ _ _ _ _ hx]
   · simp [get_notFound _ _ _ _ _ _ (h1 e)]
   · obtain ⟨x, hx, hp⟩ := h3 e
     simp [get_found _ _ _ _ _ _ _ hx, hp]
@@ -1053,14 +1051,11 @@ theorem stsLike_absent (c : Cluster) (ns : String) (ref : Ref) (hf : c.failGet =
   simp only [present] at hp
   split
   · rfl
+  · rfl
   all_goals
     rename_i he
     rw [he] at hp
     simp only at hp
-  · have : lookup ReplicaSet.m c.replicaSets ns ref.name = none := by
-      cases hl : lookup ReplicaSet.m c.replicaSets ns ref.name <;> simp_all
-    unfold Cluster.getReplicaSet
-    rw [get_noFault _ _ _ _ _ _ hf this]; rfl
   · have : lookup DaemonSet.m c.daemonSets ns ref.name = none := by
       cases hl : lookup DaemonSet.m c.daemonSets ns ref.name <;> simp_all
     unfold Cluster.getDaemonSet
@@ -1196,19 +1191,17 @@ theorem adm_parts (c : Cluster) (h : admissible c = true) :
 theorem afterGet_panic {α : Type} (g : GetR α) (parse : α → Option Info) (h : afterGet g parse = .panic) :
     ∃ x, g = .found x ∧ parse x = none := (afterGet_out g parse _ h).2.2 rfl
 
-/-- the StatefulSet-like finder panics only on an existing typed ReplicaSet (the finding) or on an inadmissible object -/
+/-- the StatefulSet-like finder never panics on admissible objects -/
 theorem stsLike_panic (c : Cluster) (ns : String) (ref : Ref) (h : getStatefulSetLikeWorkload c ns ref = .panic)
-    (hadm : admissible c = true) :
-    getEmptyWorkloadObject c.filter (fromAPIVersionAndKind ref.apiVersion ref.kind) = some .replicaSet ∧
-    (lookup ReplicaSet.m c.replicaSets ns ref.name).isSome = true := by
+    (hadm : admissible c = true) : False := by
   obtain ⟨h1, h2, h3, h4, h5, h6⟩ := adm_parts c hadm
   unfold getStatefulSetLikeWorkload at h
   split at h
   · cases h
+  · cases h
   all_goals
     rename_i he
     obtain ⟨x, hx, hp⟩ := afterGet_panic _ _ h
-  · exact ⟨he, by simp [get_found _ _ _ _ _ _ _ hx]⟩
   · simp [parseDaemonSet] at hp
   · have := all_mem h2 (lookup_mem _ _ _ _ _ (get_found _ _ _ _ _ _ _ hx))
     unfold parseDeployment at hp
@@ -1238,9 +1231,8 @@ theorem firstHit_mem (l : List Out) (o : Out) (h : firstHit l = o) (hne : o ≠ 
     | wlErr w => simp only [firstHit] at h; subst h; simp
     | panic => simp only [firstHit] at h; subst h; simp
 
-theorem run_no_panic (c : Cluster) (s : Strategy) (ns : String) (ref : Ref) (f : FinderId)
-    (hadm : admissible c = true) (hbg : f = .stsLike → s.blueGreen = false) (hg : replicaSetRef c s ns ref = false) :
-    runFinder c ns ref f ≠ .panic := by
+theorem run_no_panic (c : Cluster) (ns : String) (ref : Ref) (f : FinderId)
+    (hadm : admissible c = true) : runFinder c ns ref f ≠ .panic := by
   obtain ⟨h1, h2, h3, h4, h5, h6⟩ := adm_parts c hadm
   intro h
   cases f with
@@ -1256,9 +1248,7 @@ theorem run_no_panic (c : Cluster) (s : Strategy) (ns : String) (ref : Ref) (f :
       simp [hr] at this
     · have := all_mem h3 hrs
       simp [hr] at this
-  | stsLike =>
-    obtain ⟨he, hl⟩ := stsLike_panic c ns ref h hadm
-    simp [replicaSetRef, hbg rfl, he, hl] at hg
+  | stsLike => exact stsLike_panic c ns ref h hadm
 
 theorem style_blueGreen (s : Strategy) (st : Style) (hs : getRollingStyle s = some st) (hf : FinderId.stsLike ∈ finders st) :
     s.blueGreen = false := by
